@@ -156,6 +156,7 @@ def run(ctx):
         _finite(ctx, cfg, prog, mod)
         _assertgate(ctx, cfg, prog, mod)
         _rngrange(ctx, cfg, prog, mod)
+        _rangeguard(ctx, cfg, prog, mod)
     return ctx.finish(EXPLANATION)
 
 
@@ -454,7 +455,10 @@ _SMALLCOUNT = 'u8 multiplicity counter of cells around one facet / ridge / edge;
 _DMINUS = 'D - 1 / D + 2 - k on the const dimension and a flip arity validated just above (k <= D + 1)'
 _LATTICE = 'lattice offsets in {-1, 0, 1} and digits in {0, 1, 2}; i16 widening before the +128 bias'
 _COMB = 'combination enumeration on indices with k <= n checked on entry'
+_MEMCOUNT = 'usize product of an in-memory collection length, D + 1 and a small constant (a flip budget): bounded by the size of the allocation'
 ARITH_TABLE = {
+    'core::delaunay_triangulation::DelaunayTriangulation::finalize_bulk_construction': (2, _MEMCOUNT),
+    'core::delaunay_triangulation::DelaunayTriangulation::insert_remaining_vertices_seeded': (8, _MEMCOUNT),
     'core::algorithms::flips::BistellarFlipKind::inverse': (1, _DMINUS),
     'core::algorithms::flips::apply_bistellar_flip_with_k': (1, _DMINUS),
     'core::algorithms::flips::build_flip_topology_index': (1, _SMALLCOUNT),
@@ -463,7 +467,7 @@ ARITH_TABLE = {
     'core::algorithms::incremental_insertion::find_visible_boundary_facets': (1, 'len() - 1 of a vector that was just filled with D + 1 points'),
     'core::algorithms::locate::extract_cavity_boundary': (1, 'len() - 1 behind `len() >= 2`'),
     'core::algorithms::locate::is_point_outside_facet': (1, 'product of two orientation signs in {-1, 0, 1}'),
-    'core::builder::DelaunayTriangulationBuilder::build_periodic': (21, _LATTICE + '; jitter arithmetic on values reduced modulo a constant span (|x| < 2^52); '
+    'core::builder::DelaunayTriangulationBuilder::build_periodic': (23, _LATTICE + '; 2 * D + 1 and zero_offset_idx * n (an index into the 3^D * n image list that was just allocated)' + '; jitter arithmetic on values reduced modulo a constant span (|x| < 2^52); '
                                                                     'facet multiplicities (u8) of a candidate complex; Euler count difference of cell counts'),
     'core::builder::search_closed_2d_selection::dfs': (8, _SMALLCOUNT + '; decrements mirror the increments on backtracking'),
     'core::delaunay_triangulation::morton_code': (2, _SHIFT),
@@ -472,7 +476,7 @@ ARITH_TABLE = {
     'core::triangulation::Triangulation::collect_edges': (1, 'division by the literal 2'),
     'core::triangulation::Triangulation::insert_transactional': (2, 'remainder by the literal 2; shift by the literal 32'),
     'core::triangulation_data_structure::Tds::facet_vertex_identities_in_cell_order': (1, _LATTICE),
-    'core::util::facet_keys::periodic_facet_key_from_lifted_vertices': (2, _LATTICE),
+    'core::util::facet_keys::periodic_facet_key_from_lifted_vertices': (3, _LATTICE + '; capacity hint len() * (D + 1) of an in-memory facet'),
     'core::util::facet_utils::generate_combinations': (3, _COMB),
     'core::util::hashing::stable_hash_u64_slice': (3, _SHIFT),
     'core::util::hilbert::hilbert_index': (1, _SHIFT),
@@ -536,8 +540,8 @@ def _arith_sites(prog):
                     ty = ty or o[1].get('ty')
                 elif not o[1][1]:
                     ty = b.locals[o[1][0]]
-            if ty == 'usize' and m in ('Overflow(Add)', 'Overflow(Mul)'):
-                continue
+            if ty == 'usize' and m == 'Overflow(Add)':
+                continue            # index / counter arithmetic on in-memory sizes: ~390 sites, not classified
             if m in ('DivisionByZero', 'RemainderByZero') and _literal_divisor(b, t):
                 continue
             out[b.root or q].append((m, ty, t.line, b.file))
@@ -798,6 +802,63 @@ def _rngrange(ctx, cfg, prog, mod):
                    'reachable without a finiteness test of the width: for finite bounds of extreme magnitude (high - low '
                    'overflows) rand unwraps Error::NonFinite and panics'), site=site)
     ctx.floor('functions sampling from a caller-supplied range', 1, n_roots, cfg)
+
+
+# ------------------------------------------------------------------------------------------ RANGEGUARD
+def _rangeguard(ctx, cfg, prog, mod):
+    """RANGEGUARD: `&v[..=D]`, `&v[a..b]` panic when the range leaves the collection (a library call, not a MIR
+    bounds-check assert).  Every range index on a slice / Vec / SmallVec in the library whose bounds are not the full
+    range is dominated by a branch on a comparison involving `len()` of the same collection, or takes its bound from
+    that `len()` (or a `min` with it).  A length test on a *different* list (the raw input before de-duplication)
+    does not count."""
+    import valueflow
+    ctx.rule('RANGEGUARD', 'range indexing of a collection is guarded by a length test on the same collection')
+    n = 0
+    for q, b in sorted(prog.bodies.items()):
+        if '::tests::' in q or not b.file.startswith('src/'):
+            continue
+        al = None
+        uses = None
+        for bb, t in b.calls():
+            name = t.callee or t.resolved or ''
+            if name not in ('std::ops::Index::index', 'std::ops::IndexMut::index_mut') or len(t.args) < 2:
+                continue
+            ity = b.locals[t.args[1].place.local] if t.args[1].place is not None else ''
+            if 'std::ops::Range' not in ity or 'RangeFull' in ity:
+                continue
+            al = al or mod.aliases(q)
+            uses = uses or flow._collect_uses(b)
+            n += 1
+            tt = al.operand_target(t.args[0])
+            root = tt[0] if tt is not None else (t.args[0].place.local if t.args[0].place is not None else None)
+
+            def len_of_root(leaves):
+                for x in leaves:
+                    if x[0] == 'call' and (x[1].callee or x[1].resolved or '').rsplit('::', 1)[-1] in ('len', 'number_of_vertices') and x[1].args:
+                        lt = al.operand_target(x[1].args[0])
+                        lr = lt[0] if lt is not None else (x[1].args[0].place.local if x[1].args[0].place is not None else None)
+                        if lr == root or root in {y[1] for y in valueflow.sources(b, al, lr) if y[0] == 'param'} and lr == root:
+                            return True
+                return False
+            # (a) the bound itself comes from len() of the same collection
+            bound_ok = t.args[1].place is not None and len_of_root(valueflow.sources(b, al, t.args[1].place.local))
+            # (b) a dominating branch on a comparison involving len() of the same collection
+            guard_blocks = set()
+            for blk in b.blocks:
+                if blk.cleanup or blk.term.k != 'switch' or blk.term.discr.place is None or not blk.term.discr.place.is_local():
+                    continue
+                if len_of_root(valueflow.sources(b, al, blk.term.discr.place.local)):
+                    guard_blocks.add(blk.idx)
+            reach = flow.reach_edges(b, [0], avoid_blocks=guard_blocks) if 0 not in guard_blocks else set()
+            guarded = bb not in reach
+            ok = bound_ok or guarded
+            ctx.ob('RANGEGUARD', '%s|%s' % (b.root or q, ity.split('<')[0].rsplit('::', 1)[-1]), cfg, ok,
+                   'range index (%s) %s' % (ity.split('<')[0].rsplit('::', 1)[-1],
+                       'takes its bound from len() of the collection' if bound_ok else
+                       'is dominated by a branch on len() of the same collection' if guarded else
+                       'is reachable without any test on the length of the collection it slices: a shorter list (e.g. after '
+                       'de-duplication) panics with "range end index out of range"'), site='%s:%d' % (b.file, t.line))
+    ctx.floor('range-indexing sites', 1, n, cfg)
 
 # ------------------------------------------------------------------------------------------ ASSERTGATE
 def _assertgate(ctx, cfg, prog, mod):
